@@ -34,7 +34,9 @@ ASSUMPTIONS = ['|values| <= 2e9 and alpha, beta <= 1e3, so no importance overflo
 
 NAME_POOL = ([f'f{i}' for i in range(24)] +
              ['a', 'b', 'c', 'z', 'A', 'user_id', 'label2', 'x AND y', 'u-(3; 100)', 'v-(12; 87)', 'BRAND', 'ANDROID',
-              'a AND_REL b', 'feature-with-dash', '0', '1', '', ' ', 'é', 'f1_tr_sqrt', 'very_long_feature_name_' + 'x' * 40])
+              'a AND_REL b', 'feature-with-dash', '0', '1', '', ' ', 'é', 'f1_tr_sqrt', 'very_long_feature_name_' + 'x' * 40,
+              'descriptive_interaction_feature_name_' + 'y' * 60 + '_a', 'descriptive_interaction_feature_name_' + 'y' * 60 + '_b',
+              'z' * 130])     # names beyond 64 / 128 characters, two of them sharing their first 97
 MODES = ['bin', 'grid', 'unit', 'signed', 'wide', 'neartie', 'bigtie']
 STRATEGIES = ['median', 'mean', 'sum']
 COEFS = [0.0, 1e-3, 0.5, 1.0, 10.0, 1e3]
@@ -93,6 +95,7 @@ def small_case(draw):
     out['alpha'] = draw(st.sampled_from(COEFS))
     out['beta'] = draw(st.sampled_from(COEFS))
     out['int_scores'] = draw(st.sampled_from(['none', 'none', 'relevance', 'all']))   # integral scores passed as Python ints
+    out['np_scalars'] = draw(st.sampled_from([False, False, False, True]))
     out['again'] = draw(st.sampled_from([0, 0, 1, 2]))     # history: the caller updates its dictionaries in place and ranks again
     out['ghost'] = draw(st.sampled_from([0, 0, 0, 1, 3]))  # pair entries that mention a name without relevance entry (not a feature)
     return out
@@ -110,7 +113,8 @@ def big_case(draw):
                     'int_scores': draw(st.sampled_from(['none', 'none', 'relevance', 'all']))},
             'strategy': draw(st.sampled_from(STRATEGIES)),
             'alpha': draw(st.sampled_from(COEFS)), 'beta': draw(st.sampled_from(COEFS)),
-            'again': draw(st.sampled_from([0, 0, 1, 2])), 'ghost': draw(st.sampled_from([0, 0, 0, 1, 3]))}
+            'again': draw(st.sampled_from([0, 0, 1, 2])), 'ghost': draw(st.sampled_from([0, 0, 0, 1, 3])),
+            'np_scalars': draw(st.sampled_from([False, False, False, True]))}
 
 
 def case_strategy():
@@ -214,6 +218,20 @@ def oracle(case, rec):
     strategy, alpha, beta = case['strategy'], float(case['alpha']), float(case['beta'])
     relevance, redundancy, relation = build_dicts(feats, rel, red, rla, red_self, rla_self)
     ints = case.get('int_scores', 'none') if 'gen' not in case else case['gen'].get('int_scores', 'none')
+    if case.get('np_scalars'):
+        # scores taken out of numpy arrays: float32 cells of a score matrix, int64 counts. The values the function receives are the
+        # rounded ones, so the validity predicate is evaluated on them
+        f32 = lambda v: float(np.float32(v)) if abs(v) < 3e38 else v      # noqa: E731
+        rel = [f32(v) for v in rel]
+        red = {k: f32(v) for k, v in red.items()}
+        rla = {k: f32(v) for k, v in rla.items()}
+        relevance, redundancy, relation = build_dicts(feats, rel, red, rla, red_self, rla_self)
+        as_np = lambda v: np.int64(v) if float(v).is_integer() and abs(v) < 2**53 else np.float32(v)   # noqa: E731
+        relevance = {k: as_np(v) for k, v in relevance.items()}
+        redundancy = {k: as_np(v) for k, v in redundancy.items()}
+        relation = {k: as_np(v) for k, v in relation.items()}
+        rec.cls('scores-as-numpy-scalars')
+        ints = 'none'
     if ints != 'none':
         # scores are "finite numbers": integral ones may well arrive as Python ints (e.g. counts); same values, other type
         as_int = lambda v: int(v) if float(v).is_integer() and abs(v) < 2**53 else v   # noqa: E731
